@@ -20,7 +20,7 @@ func init() {
 			"(alias) no in-place append on Option.paths / NodePath.path; " +
 			"(tasks-carry-options) both task constructors hand the extracted options to the task; " +
 			"(convert-option) convertOption uses a comma-ok assertion and returns an error; (reflect-zero) the error arms cannot panic on a nil option.",
-		decided:    []string{"visits-all", "opts-forwarded", "error-arms", "type-filter", "no-leak", "alias", "tasks-carry-options", "convert-option", "reflect-zero"},
+		decided:    []string{"visits-all", "opts-forwarded", "error-arms", "type-filter", "no-leak", "alias", "tasks-carry-options", "convert-option", "reflect-zero", "passthrough-not-a-graph", "designation-accumulates"},
 		notDecided: []string{"routing correctness over all nestings/designations (value-level)", "how components interpret their options"},
 		run:        runC16,
 	})
